@@ -1207,10 +1207,17 @@ def add_and_update_gp(
     """
     prev_X, prev_y, prev_s2 = gp.X, gp.y, gp.s2
     prev_hyp = gp.get_hyperparameters(as_array=True)
-    gp.X = np.concatenate((gp.X, np.atleast_2d(x_new)))
-    gp.y = np.concatenate((gp.y, np.atleast_2d(y_new)))
     if options["specify_target_noise"] and sd_new is not None:
-        gp.s2 = np.concatenate((gp.s2, np.atleast_2d(sd_new) ** 2))
+        # A repeated observation of a point is merged into its record of the
+        # log (y_new, sd_new are the merged values): the training row of that
+        # point is replaced, not duplicated with a stale value.
+        keep = ~np.all(gp.X == np.atleast_2d(x_new), axis=1)
+        gp.X = np.concatenate((gp.X[keep], np.atleast_2d(x_new)))
+        gp.y = np.concatenate((gp.y[keep], np.atleast_2d(y_new)))
+        gp.s2 = np.concatenate((gp.s2[keep], np.atleast_2d(sd_new) ** 2))
+    else:
+        gp.X = np.concatenate((gp.X, np.atleast_2d(x_new)))
+        gp.y = np.concatenate((gp.y, np.atleast_2d(y_new)))
 
     try:
         gp.update(compute_posterior=True)
